@@ -950,6 +950,91 @@ def tr_scipy(src: Sources):
     return {"gen_scipy": out + top, "gen_scipy_dispatch": "Parallel(n_jobs=self.algo_parameters['n_jobs'])"}
 
 
+# ----------------------------------------------------------------------------- simulate
+
+
+def tr_simulate(src: Sources):
+    """simulate (algo/simulate/base.py `_run` and the four methods of simulate.py it calls): the FOOTPRINT of the call on the
+    model's own state and on the generators — reads of hyper-parameters / parameters / "mixing_matrix" on `model.state`, numpy
+    draws, `estimate` —, in source order but without the (data-dependent) loop structure."""
+    out = tr_entry(src, "simulate", "self")
+    base = load_methods(SRC / "algo" / "simulate" / "base.py", "BaseSimulationAlgorithm")
+    sim = load_methods(SRC / "algo" / "simulate" / "simulate.py", "SimulationAlgorithm")
+    run = src.method(base, "_run", "simulate")
+    called = []
+    for n in ast.walk(run):
+        if isinstance(n, ast.Call) and dotted(n.func) and dotted(n.func).startswith("self."):
+            called.append(dotted(n.func))
+    want = ["self._sample_individual_parameters_from_model_parameters", "self._get_leaspy_model", "self._generate_visit_ages",
+            "self._generate_dataset", "self.param_study.get"]
+    if sorted(set(called)) != sorted(want):
+        raise Untranslatable(f"simulate._run calls {sorted(set(called))}")
+    foot = []
+    uses_estimate = False
+
+    def visit(node, model_names):
+        nonlocal uses_estimate
+        for ch in ast.iter_child_nodes(node):
+            visit(ch, model_names)
+        if isinstance(node, ast.Attribute):
+            base_d = dotted(node.value)
+            if node.attr in ("state", "_state"):
+                if base_d not in model_names:
+                    raise Untranslatable(f"simulate: `{ast.unparse(node)}`: State of an unknown object")
+                return
+            if base_d in model_names:
+                if node.attr == "parameters":
+                    add(("AGet", OMODEL, ("GParams",)))
+                elif node.attr == "hyperparameters":
+                    add(("AGet", OMODEL, ("GHyper",)))
+                elif node.attr in ("source_dimension", "name", "features", "dimension", "estimate", "__class__"):
+                    pass
+                else:
+                    raise Untranslatable(f"simulate: `{ast.unparse(node)}`: unknown use of the model")
+        if isinstance(node, ast.Call):
+            d = dotted(node.func) or ""
+            if d.startswith("np.random.") or d == "beta.rvs":
+                add(("ADraws", d, "GNp"))
+            elif d.startswith("torch.rand") or d.startswith("torch.normal") or d.startswith("random."):
+                add(("ADraws", d, "GTorch" if d.startswith("torch") else "GPy"))
+            elif isinstance(node.func, ast.Attribute) and node.func.attr == "get_tensor_value":
+                recv = node.func.value
+                if not (isinstance(recv, ast.Attribute) and recv.attr in ("state", "_state") and dotted(recv.value) in model_names
+                        and len(node.args) == 1 and isinstance(node.args[0], ast.Constant)):
+                    raise Untranslatable(f"simulate: `{ast.unparse(node)[:80]}`")
+                add(("AGet", OMODEL, ("GName", node.args[0].value)))
+            elif isinstance(node.func, ast.Attribute) and dotted(node.func.value) in model_names:
+                if node.func.attr == "estimate":
+                    uses_estimate = True
+                else:
+                    raise Untranslatable(f"simulate: call `{d}` on the model")
+            elif isinstance(node.func, ast.Attribute) and node.func.attr in ("clone", "put", "put_individual_latent_variables", "auto_fork"):
+                if "state" in ast.unparse(node.func.value):
+                    raise Untranslatable(f"simulate: `{ast.unparse(node)[:80]}`")
+        if isinstance(node, (ast.Assign, ast.AugAssign)):
+            for t in (node.targets if isinstance(node, ast.Assign) else [node.target]):
+                txt = ast.unparse(t)
+                for m in model_names:
+                    if txt.startswith(m + ".") and txt != "self.model":
+                        raise Untranslatable(f"simulate: assignment into the model: {ast.unparse(node)[:100]}")
+                if isinstance(t, ast.Subscript) and any(ast.unparse(t.value).startswith(m + ".") for m in model_names):
+                    raise Untranslatable(f"simulate: assignment into the model: {ast.unparse(node)[:100]}")
+
+    def add(a):
+        if a not in foot:
+            foot.append(a)
+
+    visit(run, {"model"})
+    for name in ("_sample_individual_parameters_from_model_parameters", "_get_leaspy_model", "_check_logistic_model",
+                 "_generate_visit_ages", "_generate_dataset"):
+        fn = src.method(sim, name, "simulate")
+        visit(fn, {"model", "self.model"})
+    require_text(src.method(sim, "_get_leaspy_model", "simulate"), "self.model = model", "self.model is the model itself")
+    if not uses_estimate:
+        raise Untranslatable("simulate: no call of model.estimate")
+    return {"gen_simulate_foot": [("ASeed",)] + foot}
+
+
 # ----------------------------------------------------------------------------- settings
 
 
@@ -982,7 +1067,7 @@ def tr_settings(src: Sources):
                 tg = [n.target]
             for t in tg:
                 txt = ast.unparse(t)
-                if txt.endswith(".algo_parameters") and n is not asg[0] and path.name != "settings.py":
+                if txt.endswith(".algo_parameters") and ast.unparse(n) != ast.unparse(asg[0]) and path.name != "settings.py":
                     val = ast.unparse(n.value) if getattr(n, "value", None) is not None else ""
                     if "settings" in val and "deepcopy" not in val:
                         raise Untranslatable(f"{path.name}: `{ast.unparse(n)[:100]}` binds algo_parameters to the caller's settings")
@@ -1005,6 +1090,7 @@ def build(src: Sources | None = None):
     progs.update(tr_estimate(src))
     progs.update(tr_mcmc(src))
     progs.update(tr_scipy(src))
+    progs.update(tr_simulate(src))
     progs.update(tr_settings(src))
     return progs
 
@@ -1014,7 +1100,9 @@ def translate(run: Run) -> bool:
         progs = build()
         out = [HEADER]
         for name, p in progs.items():
-            if name == "gen_settings_copy":
+            if name == "gen_simulate_foot":
+                out.append(f"Definition {name} : list atom :=\n  [" + ";\n   ".join(coq_atom(a) for a in p) + "].\n")
+            elif name == "gen_settings_copy":
                 out.append(f"Definition {name} : copy_kind := {p}.\n")
             elif isinstance(p, str):
                 out.append(f"Definition {name} : string := {coq_str(p)}.\n")
